@@ -193,6 +193,22 @@ CLAIMED["C02"] = dict(
         "synchronous (its race with shutdown is exercised by the forced schedule). Trusted: Coq kernel, translator, harness, python oracle. No axioms.",
    technique="Rocq proof that close+open with any subset of index files preserves the refinement invariant and all live entries, lifted to all histories with restarts; differential correspondence with file deletion",
    design="6/C02")
+CLAIMED["C08"] = dict(
+   text="Theorems (coq/props/C08.v) over the model of HTree.set / remove / updateNodes / listDir: C08_leaf_summaries -- for ALL tree shapes "
+        "(height 1..8) and ALL sequences of set / remove (the very fold the correspondence check runs) over key hashes that do not alias inside "
+        "the tree, every leaf node's count equals the number of live items of its leaf (mod 2^32) and its hash equals the sum over live items of "
+        "vhash * uint16(keyhash >> 32) (mod 2^16): the incrementally maintained summaries (add / subtract with uint16 / uint32 wrap-around, "
+        "invalidation of the path) are exact functions of the leaf's CURRENT items; C08_leaf_history_independent -- two trees holding the same "
+        "items per leaf in any order have identical leaf counts and hashes, whatever permutations, overwrites, deletes and re-sets produced them. "
+        "Correspondence: pairs of seeded histories with equal final content (permutations, redundant overwrites, delete-then-reset) on trees of "
+        "depth 0..2 x height 2..6 incl. leaf populations across the 256-item listing threshold and the 100-item C search threshold: every '@' "
+        "listing at every prefix, root (hash, count), item lookups and the listing after dump+load are compared with the model, and a python "
+        "oracle recomputes every listing from the final live content alone (node level exactly, item level as sets).",
+   note="PARTIAL: aggregation of inner nodes (updateNodes with lazy 'updated' marks, the *97 rule above the list threshold), item-level listings, the "
+        "reconstruction of the full key hash from path + stored low bytes, dump/load and the top-level aggregate over buckets (C15) are established "
+        "by correspondence + oracle, not by theorem. The C realloc/memcmp leaf arrays are modelled as lists. Trusted: Coq kernel, harness, oracle. No axioms.",
+   technique="Rocq invariant proof (exact modular bookkeeping of leaf summaries over all operation sequences; permutation invariance); differential correspondence on history pairs with equal content",
+   design="6/C08")
 NOT_YET = {}
 props = [json.loads(l) for l in open(os.path.join(V, "properties.jsonl"))]
 checks = []
